@@ -177,6 +177,35 @@ func init() {
 	checkRegistry = append(checkRegistry, &checkSpec{id: "C06", level: "other", quick: c06, thorough: withD(c06, 3, 3000000), assume: orchAssume, outside: append(orchOutside, "extension crashes / init errors (to be added)", "exit codes vs signals (the fake supervisor reports status 1)")})
 }
 
+func init() {
+	pkgRC := modulePath + "/lambda/rapidcore"
+	pkgRapid := modulePath + "/lambda/rapid"
+	c09 := []*harnessSpec{
+		orch(pkgRapid, "VerifC09Reset0", 2, "timeout reset with no extension: runtime killed at once", "returned", "no-extensions"),
+		orch(pkgRapid, "VerifC09Reset1", 2, "timeout reset, 1 extension with symbolic behaviour {subscribed+exits 0, subscribed+ignores, unsubscribed, failed to launch, subscribed+exits 1} x runtime {exits on TERM, ignores TERM}", "returned", "with-extensions"),
+		orch(pkgRapid, "VerifC09Shutdown1", 1, "explicit shutdown, 1 extension, same behaviour choices", "returned", "with-extensions"),
+		orch(pkgRapid, "VerifC09Reset1Failure", 1, "failure reset, 1 extension", "returned"),
+		orch(pkgRapid, "VerifC09Reset2", 1, "timeout reset, 2 extensions: all 5x5 behaviour pairs x 2 runtime behaviours", "returned", "with-extensions"),
+	}
+	c09t := append(withD(c09, 2, 3000000), orch(pkgRapid, "VerifC09Shutdown2", 2, "explicit shutdown, 2 extensions", "returned"))
+	checkRegistry = append(checkRegistry, &checkSpec{id: "C09", level: "other", quick: c09, thorough: c09t,
+		assume: []string{"ORCH composition with the real shutdownContext.shutdown / shutdownRuntime / shutdownAgents / clearExitedChannel / handleProcessExit / watchEvents / ShutdownRenderer from go/ssa", "fake supervisor: Terminate makes a cooperative process exit, Kill makes it exit unless the request deadline has already passed (contract of the local supervisor); every exit posts one event", "logical clock; timers (deadlines, 2 s grace) fire only when no thread can run", "delay-bounded schedules"},
+		outside: []string{"real signal delivery and reaping (C19)", "the 30% share is checked with concrete durations (2000 ms allowance), not symbolically", "already-exited and never-started runtime variants", "upper bound deadline + 9 s + 2 s (logical time only)"}})
+
+	c15 := []*harnessSpec{
+		orch(pkgRC, "VerifFullInitCrash", 2, "runtime exits during the first init; event grammar + truthfulness monitor over the whole trace", "scenario-done"),
+		orch(pkgRC, "VerifFullInlineInitCrash", 2, "timeout, then the re-initialisation's runtime exits; exactly one invoke-start per dispatched invocation", "scenario-done"),
+		orch(pkgRC, "VerifFullInitError", 2, "runtime reports init/error", "scenario-done"),
+		orch(pkgRC, "VerifFullHealthy2Ext", 1, "healthy invocations with an extension", "scenario-done"),
+		orch(pkgRC, "VerifFullTimeoutExt", 1, "timeout with an extension", "scenario-done"),
+		orch(pkgRC, "VerifFullExitExt", 1, "runtime exit with an extension", "scenario-done"),
+		orch(pkgRapid, "VerifC03Init1I1", 1, "init with external + internal extension, then an invocation", "done"),
+	}
+	checkRegistry = append(checkRegistry, &checkSpec{id: "C15", level: "other", quick: c15, thorough: withD(c15, 3, 3000000),
+		assume: []string{"recording EventsAPI injected into the real rapidContext; the monitor (harness code) checks nesting, counts, phase tags and truthfulness of success statuses against the ghost log of what the scripted parties really did"},
+		outside: []string{"log formatting / standalone telemetry rendering", "the exact error type of every failure (only non-empty for error statuses, Runtime.ExitError checked in C06)", "restore events"}})
+}
+
 // expiry: timers are not restricted to quiescence (the harness switches them with verifRaceTimers)
 func expiry(h *harnessSpec) *harnessSpec { h.maximalProgress = false; return h }
 
